@@ -370,6 +370,90 @@ func c02Body(d c02Desc, tier string) func() {
 					conn.Close()
 				}
 			}
+		case "emit2s", "emit2c":
+			// two connections of one process emit at the same time: the first message is stuck in a blocked
+			// write (the peer does not read) while the second one is encoded and sent; then the first drains
+			var na, nb int
+			fmt.Sscanf(d.Seq[0], "%d", &na)
+			fmt.Sscanf(d.Seq[1], "%d", &nb)
+			fillFrame := func(b []byte) (string, string) {
+				if _, p := streamOK(b); p != "" {
+					return "", p
+				}
+				var m struct {
+					Parameters struct {
+						P  string `json:"p"`
+						Ch string `json:"ch"`
+						N  int    `json:"n"`
+					} `json:"parameters"`
+				}
+				if err := json.Unmarshal(b[:len(b)-1], &m); err != nil {
+					return "", err.Error()
+				}
+				if m.Parameters.P == "" && m.Parameters.N > 0 {
+					return strings.Repeat(m.Parameters.Ch, m.Parameters.N), ""
+				}
+				return m.Parameters.P, ""
+			}
+			if d.Kind == "emit2s" {
+				ca, _ := l.Dial("a")
+				ca.Peer().Cap = -1 // the service's writes to A block
+				ca.Write([]byte(fmt.Sprintf(`{"method":"t.f.Fill","parameters":{"n":%d,"ch":"a"}}`+"\x00", na)))
+				vsched.Yield("wait-A-stuck", "H", func() bool { return ca.Peer().WriteCalls >= 1 })
+				cb, _ := l.Dial("b")
+				connB := varlink.VerifNewConnection(cb)
+				var out struct {
+					P string `json:"p"`
+				}
+				if err := connB.Call(live, "t.f.Fill", map[string]interface{}{"n": nb, "ch": "b"}, &out); err != nil || out.P != strings.Repeat("b", nb) {
+					fail("connection B: Call returned %d bytes (err %v), want %d x 'b'", len(out.P), err, nb)
+				}
+				if _, p := streamOK(cb.Received()); p != "" {
+					fail("connection B, service -> client: %s", p)
+				}
+				ca.Peer().Cap = 0
+				pa := &rawPeer{c: ca}
+				pa.readFrame()
+				got, p := fillFrame(ca.Received())
+				if p != "" {
+					fail("connection A, service -> client (reply written after B's was encoded): %s", p)
+				} else if got != strings.Repeat("a", na) {
+					fail("connection A: reply carries %d bytes starting %q, want %d x 'a'", len(got), short(got)[:min(len(got), 20)], na)
+				}
+				connB.Close()
+				ca.Close()
+			} else {
+				// client side: two Connections of this process, A's Send is stuck in the write
+				pa, ma := vnet.Pipe("ua")
+				pb, mb := vnet.Pipe("ub")
+				ma.Cap = -1
+				connA, connB := varlink.VerifNewConnection(ma), varlink.VerifNewConnection(mb)
+				sentA := false
+				vsched.GoDaemon("A", func() {
+					connA.Send(live, "t.f.Fill", map[string]interface{}{"n": na, "ch": "a", "p": strings.Repeat("a", na)}, varlink.Oneway)
+					sentA = true
+				})
+				vsched.Yield("wait-A-stuck", "H", func() bool { return ma.WriteCalls >= 1 })
+				if _, err := connB.Send(live, "t.f.Fill", map[string]interface{}{"n": nb, "ch": "b", "p": strings.Repeat("b", nb)}, varlink.Oneway); err != nil {
+					fail("connection B: Send: %v", err)
+				}
+				ma.Cap = 0
+				vsched.Yield("wait-A-sent", "H", func() bool { return sentA })
+				for _, e := range []struct {
+					c    *vnet.Conn
+					ch   string
+					n    int
+					name string
+				}{{pa, "a", na, "A"}, {pb, "b", nb, "B"}} {
+					got, p := fillFrame(e.c.Received())
+					if p != "" {
+						fail("connection %s, client -> service: %s", e.name, p)
+					} else if got != strings.Repeat(e.ch, e.n) {
+						fail("connection %s: call carries %d bytes starting %q, want %d x %q", e.name, len(got), short(got)[:min(len(got), 20)], e.n, e.ch)
+					}
+				}
+			}
+			st.cases++
 		case "rxservice":
 			// a raw client sends calls of the given sizes under the given segmentation; the handler logs
 			stream, want := c02Messages(d.Seq, "call")
@@ -479,6 +563,15 @@ func (e *c02Echo) VarlinkDispatch(ctx context.Context, c varlink.Call, method st
 		}
 		e.st.recv = append(e.st.recv, fmt.Sprintf("%s:%d", in.ID, len(in.P)))
 		return c.Reply(ctx, map[string]string{"id": in.ID})
+	case "Fill":
+		var in struct {
+			N  int    `json:"n"`
+			Ch string `json:"ch"`
+		}
+		if err := c.GetParameters(&in); err != nil {
+			return c.ReplyInvalidParameter(ctx, "parameters")
+		}
+		return c.Reply(ctx, map[string]string{"p": strings.Repeat(in.Ch, in.N)})
 	case "Echo":
 		v := map[string]interface{}{"v": e.value}
 		switch e.path {
@@ -551,6 +644,13 @@ func scenariosC02(tier string) []Scen {
 	names, _ := c02Values(tier)
 	for i := 0; i < len(names); i += 4 {
 		add(c02Desc{Kind: "emit", Values: names[i:min(i+4, len(names))]})
+	}
+	for _, kind := range []string{"emit2s", "emit2c"} {
+		for _, a := range []string{"10", "600", "5000", "70000"} {
+			for _, b := range []string{"10", "600", "5000", "70000"} {
+				out = append(out, Scen{Desc: c02Desc{Kind: kind, Seq: []string{a, b}}, Bound: 1, Horizon: 100000000, Body: c02Body(c02Desc{Kind: kind, Seq: []string{a, b}}, tier), Check: c02Check, Obs: c02Obs, Cases: c02Cases})
+			}
+		}
 	}
 	sizes := []string{"60", "4095", "4096", "4097", "70000"}
 	var seqs [][]string
